@@ -1,8 +1,28 @@
 import GceTcb.Base.Line
+import GceTcb.Drive.C01
+import GceTcb.Drive.C02
+import GceTcb.Drive.C03
+import GceTcb.Drive.C04
+import GceTcb.Drive.C05
+import GceTcb.Drive.C06
+import GceTcb.Drive.C07
+import GceTcb.Drive.C08
+import GceTcb.Drive.C09
+import GceTcb.Drive.C10
+import GceTcb.Drive.C11
+import GceTcb.Drive.C12
 import GceTcb.Drive.C13
+import GceTcb.Drive.C14
+import GceTcb.Drive.C15
+import GceTcb.Drive.C16
+import GceTcb.Drive.C17
+import GceTcb.Drive.C18
+import GceTcb.Drive.C19
+import GceTcb.Drive.C20
 /-
 gcetcb-model: stdin line protocol → model outputs, one line out per line in.
-First token selects the stream (property handler).  Core-only (links without Mathlib).
+The first token selects the stream (property handler); handlers select sub-operations with `op=`.
+Core-only (links without Mathlib).
 -/
 open GceTcb
 
@@ -12,7 +32,26 @@ def dispatch (line : String) : String :=
   | stream :: rest =>
     let f := Fields.parse rest
     match stream with
+    | "c01" => Drive.C01.handle f
+    | "c02" => Drive.C02.handle f
+    | "c03" => Drive.C03.handle f
+    | "c04" => Drive.C04.handle f
+    | "c05" => Drive.C05.handle f
+    | "c06" => Drive.C06.handle f
+    | "c07" => Drive.C07.handle f
+    | "c08" => Drive.C08.handle f
+    | "c09" => Drive.C09.handle f
+    | "c10" => Drive.C10.handle f
+    | "c11" => Drive.C11.handle f
+    | "c12" => Drive.C12.handle f
     | "c13" => Drive.C13.handle f
+    | "c14" => Drive.C14.handle f
+    | "c15" => Drive.C15.handle f
+    | "c16" => Drive.C16.handle f
+    | "c17" => Drive.C17.handle f
+    | "c18" => Drive.C18.handle f
+    | "c19" => Drive.C19.handle f
+    | "c20" => Drive.C20.handle f
     | _ => "bad-stream"
 
 partial def loop (h : IO.FS.Stream) (out : IO.FS.Stream) : IO Unit := do
